@@ -436,6 +436,7 @@ class Sched:
         me = self.current
         wake = self.now + max(d, 0)
         me.wake = wake
+        self.emit('sleep', d=d)
         try:
             self.point('sleep', wake, enabled=lambda: self.now >= wake)
         finally:
